@@ -19,6 +19,7 @@ import (
 	"go.amzn.com/lambda/interop"
 	"go.amzn.com/lambda/rapidcore"
 	"go.amzn.com/lambda/rapidcore/env"
+	"go.amzn.com/lambda/vhook"
 
 	"github.com/google/uuid"
 
@@ -102,6 +103,7 @@ func InvokeHandler(w http.ResponseWriter, r *http.Request, sandbox Sandbox, bs i
 	memorySize := GetenvWithDefault("AWS_LAMBDA_FUNCTION_MEMORY_SIZE", "3008")
 
 	if !initDone {
+		vhook.At("frontend.lazyInit")
 
 		initStart, initEnd := InitHandler(sandbox, functionVersion, timeout, bs)
 
